@@ -36,6 +36,10 @@ pub enum Transport {
     Stdin,
     /// Interactive terminal with the given pre-existing history, served from `Sim::keys`.
     Terminal(Vec<String>),
+    /// Interactive terminal built by the real constructor: history is read from and appended
+    /// to the history file in the user cache directory (the harness points `XDG_CACHE_HOME` at
+    /// a scratch directory). Keys are served from `Sim::keys`.
+    TerminalWithHistoryFile,
 }
 
 /// Copy of the architectural state (without memory).
@@ -304,7 +308,13 @@ pub fn stdin_read(buf: &mut [u8]) -> Option<usize> {
 
 /// `Some(true)` while the simulated terminal is the command/input device.
 pub fn terminal_armed() -> bool {
-    with(|sim| matches!(sim.transport, Some(Transport::Terminal(_)))).unwrap_or(false)
+    with(|sim| {
+        matches!(
+            sim.transport,
+            Some(Transport::Terminal(_)) | Some(Transport::TerminalWithHistoryFile)
+        )
+    })
+    .unwrap_or(false)
 }
 
 pub fn transport() -> Option<Transport> {
